@@ -140,6 +140,56 @@ def on_grid(r, x, base, direction, off):
     return None
 
 
+def wrapper_rowwise(run, rnd, n_cols):
+    """The real wrapper on float columns for every statutory (base, direction, offset) and decimal bases: each row's
+    result is on the grid / within the bounds (float oracle `on_grid`) and does not depend on the other rows of the
+    column (the value for a row computed alone is bit-identical)."""
+    from _gettsim.interface import _add_rounding_to_functions
+
+    specs = {(float(e["base"]), e["direction"], float(e["off"] or 0)) for e in emit_lean.rounding_entries()
+             if isinstance(e["base"], (int, float, Fraction)) and isinstance(e["direction"], str)}
+    specs |= {(b, d, 0.0) for b in (0.01, 0.05, 0.1, 1.0, 36.0) for d in ("up", "down", "nearest")}
+    stats = {"columns": 0, "rows": 0}
+    for base, direction, off in sorted(specs):
+        def f(x):
+            return x
+
+        f.__info__ = {"params_key_for_rounding": "grp"}
+        spec = {"base": base, "direction": direction}
+        if off:
+            spec["to_add_after_rounding"] = off
+        g = _add_rounding_to_functions({"f": f}, {"grp": {"rounding": {"f": spec}}})["f"]
+        for _ in range(n_cols):
+            kind = rnd.choice(["grid", "mixed", "mixed", "offgrid"])
+            xs = []
+            for _ in range(rnd.randint(1, 7)):
+                k = rnd.randint(0, 200000)
+                on = round(k * base, 6)
+                offg = rnd.choice([k * base + base * rnd.random(), rnd.uniform(0, 5000), 827.1552, on + base / 3])
+                xs.append(on if kind == "grid" or (kind == "mixed" and rnd.random() < 0.5) else offg)
+            col = np.asarray(xs, dtype="float64")
+            ok, out = run.attempt(f"rounding wrapper base={base} {direction}", lambda: np.asarray(g(col.copy()), dtype="float64"))
+            if not ok:
+                continue
+            stats["columns"] += 1
+            run.case({"rowwise": [base, direction, off], "col": [repr(float(x)) for x in xs]})
+            for i, x in enumerate(xs):
+                stats["rows"] += 1
+                alone = float(np.asarray(g(np.asarray([x], dtype="float64")))[0])
+                if alone != float(out[i]):
+                    run.hit({"kind": "rounded-value-depends-on-other-rows", "base": base, "direction": direction},
+                            f"rounding {x!r} to base {base} ({direction}) gives {float(out[i])!r} inside the column {xs} but "
+                            f"{alone!r} alone", {"base": base, "direction": direction, "offset": off, "column": xs, "row": i})
+                    break
+                why = on_grid(float(out[i]), float(x), base, direction, off)
+                if why:
+                    run.hit({"kind": "wrapper-result-" + why.replace(" ", "-"), "base": base, "direction": direction},
+                            f"rounding {x!r} to base {base} ({direction}, offset {off}) gives {float(out[i])!r}: {why}",
+                            {"base": base, "direction": direction, "offset": off, "column": xs, "row": i})
+                    break
+    run.extra["wrapper_rowwise"] = {**stats, "specs": len(specs)}
+
+
 def raw_rule_value(date, name, cols):
     params, functions = popgen.env(date)
     f = functions[name]
@@ -287,13 +337,15 @@ def run(tier: str) -> int:
     r = common.Run("C10", tier)
     quick = tier == "quick"
     r.rule = ("T2: wrapper on grid points, half-way points and off-grid dyadic values x 3 directions x offsets x "
-              "missing-spec modes (exact); loader spec selection at every rounding entry date ±1 day; search: every "
+              "missing-spec modes (exact); the wrapper on float columns mixing grid and off-grid amounts for every statutory spec and "
+              "decimal bases: float oracle and row independence; loader spec selection at every rounding entry date ±1 day; search: every "
               "rule with a rounding key in the default graph, rounded vs unrounded on random valid populations, "
               "oracle from the real unrounded float; derived columns vs plain conversion of the rounded column")
     emit_lean.regenerate()
     common.build_and_audit(r, ["C10", "C10Inst"], leanchecker=not quick)
     rnd = common.rng("C10")
     corr.run_cases(r, "rounding wrapper vs Core/Round.lean", wrapper_cases(rnd, 300 if quick else 5000))
+    wrapper_rowwise(r, rnd, 12 if quick else 150)
     entries = emit_lean.rounding_entries()
     ords = sorted({e["date"] + d for e in entries for d in (-1, 0, 1)})
     if quick:
